@@ -28,11 +28,13 @@ struct recorder
 	std::int64_t tick_ns = 1;
 	std::int64_t last_t = 0;
 	std::int64_t events = 0;
+	bool floor_mode = false; // log floor(ns / tick) instead of insisting on the grid
 	explicit recorder(std::FILE* file) : f(file) {}
 
 	// returns the time in ticks, or -1 and logs an OffGrid event
 	std::int64_t ticks(std::int64_t ns)
 	{
+		if (floor_mode) return ns / tick_ns;
 		if (ns % tick_ns != 0)
 		{
 			std::fprintf(f, "{\"e\":\"OffGrid\",\"ns\":%lld,\"tick\":%lld}\n", (long long)(ns % 1000000000), (long long)tick_ns);
